@@ -3,7 +3,7 @@ import re
 from .. import cfg
 from ..flow import flow, strip, deep_strip, fold, show, mentions, field_path
 from ..effects import norm
-from ..facts import strip_generics, AnchorLost
+from ..facts import strip_generics, keyname, AnchorLost
 
 
 def call_sites(F, m, pred):
@@ -155,7 +155,7 @@ ESCAPE_FNS = [r"^core::mem::forget::<", r"^core::mem::manually_drop::ManuallyDro
               r"^core::mem::maybe_uninit::MaybeUninit::<.*>::assume_init_read$", r"^core::ptr::write::<"]
 
 
-def escapes(F, type_pred):
+def escapes(F, type_pred, clone_pred=None):
     """instances of forget/ManuallyDrop::new/ptr::read/... whose *type argument* satisfies type_pred, plus Clone::clone
     instances (impl or shim) on such a type"""
     out = []
@@ -166,6 +166,6 @@ def escapes(F, type_pred):
                 out.append(i); break
         else:
             m = re.match(r"^<(.*) as core::clone::Clone>::clone( - shim.*)?$", n)
-            if m and type_pred(m.group(1)):
+            if m and (clone_pred or type_pred)(m.group(1)):
                 out.append(i)
     return out
